@@ -59,7 +59,7 @@ def c07(chk):
                        what="the real connections", strip=("walks",), timeout=3400)
     for k, n in st["by_op"].items():
         ops[k] = ops.get(k, 0) + n
-    walks = {"paths": ["pair", "tunnel1", "tunnel2", "chain"], "walks": 12 if quick else 400, "depth": 60}
+    walks = {"paths": ["pair", "tunnel1", "tunnel2", "chain"], "walks": 12 if quick else 3000, "depth": 60}
     v, st = engine.run(chk, "weng", walks, "walks", "TraceWs", TRACE_CONSTS, ["NoStepViolation"], "weng-trace",
                        what="the real connections", strip=("walks",), timeout=3400)
     for k, n in st["by_op"].items():
